@@ -155,4 +155,23 @@ def apply(crates):
                 byq[f["q"]] = f
         if not changed:
             break
+    # a helper whose every call site was inlined is no longer part of the program the rules look at: whole-program scans
+    # (who may write, which results are dropped ..) would otherwise see its body twice, once under a name no table knows
+    still = set()
+    for j in crates:
+        for f in j["fns"]:
+            for blk in f["blocks"]:
+                t = blk["t"]
+                if t[0] == "call" and t[1].get("q") in new:
+                    still.add(t[1]["q"])
+            for pr in f.get("promoted", []):
+                for blk in pr["blocks"]:
+                    t = blk["t"]
+                    if t[0] == "call" and t[1].get("q") in new:
+                        still.add(t[1]["q"])
+    inlined = {h for hs in done.values() for h in hs}
+    gone = inlined - still
+    if gone:
+        for j in crates:
+            j["fns"] = [f for f in j["fns"] if f["q"] not in gone]
     return done
